@@ -245,4 +245,54 @@ theorem length_eq_x86r (opcode options opReg rbReg : BitVec 32) (imm : BitVec 64
     simp [(imm_le_exact imm n).1]
     omega
 
+
+/-! ## whole-emitter statements (list level) -/
+
+
+/-- the prefix word `x` of `EmitVexEvexR` for an already packed `op_reg` -/
+def xOfR (opcode options opReg rbReg aaa : BitVec 32) : BitVec 32 :=
+  ((opReg <<< 4) &&& 0xF980#32) ||| ((rbReg <<< 2) &&& 0x0060#32) ||| extractLLMMMMM opcode options ||| (aaa <<< 16)
+
+theorem xR_eq_xOfR (opcode options reg vvvvv rm aaa : BitVec 32) :
+    xR opcode options reg vvvvv rm aaa = xOfR opcode options (reg + (vvvvv <<< 7)) rm aaa := rfl
+
+/-- `EmitVexEvexR`, EVEX branch, as a whole: with no AVX-512 option and no EVEX preference, whenever the prefix word needs EVEX
+the emitter's output is exactly: the four EVEX bytes of `evexWord` (whose fields `vex_evex_r_roundtrip` pins down), the opcode byte,
+ModRM 11:reg:rm, and the immediate - nothing else. -/
+theorem emitVexEvexR_evex_bytes (c : Ctx) (opcode options opReg rbReg : BitVec 32) (imm : BitVec 64) (n : Nat)
+    (hopt : options &&& (oZMask ||| oER ||| oSAE) = 0#32) (hpe : c.preferEvex = false)
+    (hev : xOfR opcode options opReg rbReg c.extraId &&& 0x00D78150#32 ≠ 0#32) :
+    emitVexEvexR c opcode options opReg rbReg imm n =
+      .ok (le32 (evexWord (xOfR opcode options opReg rbReg c.extraId) opcode) ++ [opcode.truncate 8] ++
+           ([(encodeMod 3#32 (opReg &&& 7#32) (rbReg &&& 7#32)).truncate 8] ++ emitImmByteOrDword imm n)) := by
+  unfold xOfR at hev ⊢
+  simp [emitVexEvexR, vexEvexROptions, hopt, hpe, hev, bind, Except.bind, pure, Except.pure]
+
+example : emitVexEvexR { (default : Ctx) with mode64 := true, vexFlag := true, extraId := 0#32 } 0x00000158#32 0#32 (20#32 + (2#32 <<< 7)) 3#32 0 0
+    = .ok [0x62#8, 0xE1#8, 0x6C#8, 0x08#8, 0x58#8, 0xE3#8] := by rfl
+
+
+
+/-- `EmitModSib`, [BASE + INDEX*scale + DISP] path (32/64-bit addressing, entered at EmitModVSib or with a GP index): the bytes after `pre` are
+ModRM (mod, reg, rm=100), SIB (scale, index[2:0], base[2:0]) and the displacement in exactly one of the three SDM forms -
+none (mod=00; never for base rBP/r13), disp8 (mod=01) holding `cd` with `cdisp8 rel s = some cd` (so by `cdisp8_sound` it decodes to `rel`),
+or disp32 (mod=10) holding `rel` - followed by the immediate. -/
+theorem modsib_base_index_roundtrip (c : Ctx) (pre : List Byte) (ao : Nat) (opcode options opReg rbReg rxReg rmInfo : BitVec 32) (m : Mem)
+    (imm : BitVec 64) (n : Nat)
+    (hbase : rmInfo &&& kX86MemInfo_BaseGp ≠ 0#32) :
+    emitModSib c pre ao opcode options opReg rbReg rxReg rmInfo m imm n true =
+      .ok (pre ++
+        (if m.offLo32 == 0#32 && (rbReg &&& 7#32) != 5#32 then
+           [(encodeMod 0#32 opReg 4#32).truncate 8, (encodeSib (BitVec.ofNat 32 m.shift) (rxReg &&& 7#32) (rbReg &&& 7#32)).truncate 8]
+         else match cdisp8 m.offLo32 (cdShiftOf opcode) with
+           | some cd => [(encodeMod 0#32 opReg 4#32 + 0x40#32).truncate 8, (encodeSib (BitVec.ofNat 32 m.shift) (rxReg &&& 7#32) (rbReg &&& 7#32)).truncate 8, cd.truncate 8]
+           | none => [(encodeMod 0#32 opReg 4#32 + 0x80#32).truncate 8, (encodeSib (BitVec.ofNat 32 m.shift) (rxReg &&& 7#32) (rbReg &&& 7#32)).truncate 8] ++ le32 m.offLo32)
+        ++ emitImmediate imm n) := by
+  unfold emitModSib
+  simp only [Bool.not_true, Bool.false_and, Bool.true_or]
+  simp [hbase]
+  split <;> simp_all
+  split <;> simp_all
+
+
 end AsmjitVerif.Props.C01
